@@ -14,10 +14,10 @@ BOUNDS = {
     "quick": "border: all labelled manifold meshes with face arities {3}, {3,3}, {3,4} on V<=5, plus an annulus, two disjoint triangles, "
              "a closed 4-fan and a closed tetrahedron, every starting point, sorting on; features: the 2-triangle surface "
              "with arbitrary unit normals, every hard-edge subset, only_border on/off; derived data with concrete geometry and "
-             "flag_corners for corner orders 4 and 6",
+             "flag_corners for corner orders 3, 4, 6, 8 and 12 (values compared with the total angle on concrete geometry)",
     "thorough": "adds {3,3,3} and {4,4} on V<=5-6 for the border part, the 3-triangle fan (depth) and a quad pair for features",
 }
-OUTSIDE = ("values written by flag_corners (sums of atan2 terms passed to round): only that a value is set for every feature vertex; "
+OUTSIDE = ("values written by flag_corners for symbolic geometry (sums of atan2 terms passed to round): compared on concrete shapes only; "
            "sort_neighborhoods switched off (border walking relies on sorted rings)")
 ASSUMPTIONS = ["surfaces are oriented manifolds", "face normals are unit vectors (stereographic parametrisation covers every unit vector but "
                "the north pole, which is added as a concrete special case)"]
@@ -213,12 +213,15 @@ def features_concrete(sx):
         "roof": (4, [(0, 1, 2), (0, 2, 3)], [(0, 0, 0), (1, 0, 0), (1, 1, 0), (0.2, 0.9, 1.3)]),
         "flat": (4, [(0, 1, 2), (0, 2, 3)], [(0, 0, 0), (1, 0, 0), (1, 1, 0), (0, 1, 0.01)]),
         "fan": (5, [(0, 1, 2), (0, 2, 3), (0, 3, 4)], [(0, 0, 1), (1, 0, 0), (0.3, 1, 0), (-1, 0.2, 0), (-0.2, -1, 0.1)]),
+        # flat pie slices: the apex (vertex 0, on the border) sees a total angle of 80 / 130 degrees
+        "pie80": (4, [(0, 1, 2), (0, 2, 3)], [(0, 0, 0), (1, 0, 0), (0.766044443118978, 0.642787609686539, 0), (0.17364817766693, 0.984807753012208, 0)]),
+        "pie130": (4, [(0, 1, 2), (0, 2, 3)], [(0, 0, 0), (1, 0, 0), (0.422618261740699, 0.90630778703665, 0), (-0.642787609686539, 0.766044443118978, 0)]),
         "cubecorner": (7, [(0, 1, 2), (0, 2, 3), (0, 3, 4), (0, 4, 5), (0, 5, 6), (0, 6, 1)],
                        [(0, 0, 0), (1, 0, 0), (1, 1, 0), (0, 1, 0), (0, 1, 1), (0, 0, 1), (1, 0, 1)]),
     }
     name = list(shapes)[sx.choice("shape", len(shapes))]
     V, faces, coords = shapes[name]
-    order = [4, 6][sx.choice("corner_order", 2)]
+    order = [4, 6, 8, 12, 3][sx.choice("corner_order", 5)]
     only_border = sx.flag("only_border")
     mesh = meshgen.build(coords, (), faces)
     E = [tuple(int(x) for x in e) for e in mesh.edges]
@@ -248,6 +251,22 @@ def features_concrete(sx):
              detail="%s vs %s" % (sorted(got), sorted(want)))
     _derived(sx, mesh, det, E, got, tag)
     c = det.corners
+    # value: the total angle seen at the vertex in units of 2 pi / corner_order, rounded, and never 0 (a vertex seeing less than
+    # one unit counts for one); vertices whose ratio is within 1e-6 of a rounding boundary are skipped
+    import math
+    for v in det.feature_vertices:
+        tot = 0.
+        for F in faces:
+            if v in F:
+                i = list(F).index(v)
+                u, w = P[F[i - 1]] - P[v], P[F[(i + 1) % len(F)]] - P[v]
+                tot += math.atan2(float(np.linalg.norm(np.cross(u, w))), float(np.dot(u, w)))
+        ratio = tot * order / (2 * math.pi)
+        if abs(ratio - math.floor(ratio) - 0.5) < 1e-6 or abs(ratio - 1) < 1e-6:
+            continue
+        want_c = 1 if ratio < 1 else int(round(ratio))
+        sx.check(int(c[v]) == want_c, "the corner value of a feature vertex is its total angle in units of 2 pi / corner_order" + tag,
+                 detail="vertex %d, order %d: %d, expected %d (ratio %.4f)" % (v, order, int(c[v]), want_c, ratio))
     sx.check(all(v in c._data or True for v in det.feature_vertices) and all(isinstance(int(c[v]), int) for v in det.feature_vertices),
              "a corner value is available for every feature vertex" + tag)
 
